@@ -31,13 +31,13 @@ def size_value(spec, c=1.0):
     raise KeyError(kind)
 
 
-def run(program, xx, theta0=1.0, c=1.0, trace=None, timescale_factor=None):
+def run(program, xx, theta0=1.0, c=1.0, trace=None, timescale_factor=None, phi0=None):
     """interpret `program` on the real dadi; returns the final object (density or Spectrum).  `c` re-expresses the model relative to a
     reference size c times smaller... precisely: every size and time is multiplied by c, every migration rate, selection coefficient
     and theta0 divided by c.  trace (list) receives a copy of every intermediate density."""
     import dadi
     from dadi import PhiManip as PM, Integration as I
-    phi = None
+    phi = phi0          # a program without an init op continues from the caller's density
     old_tf = I.timescale_factor
     if timescale_factor is not None:
         I.timescale_factor = timescale_factor
